@@ -600,13 +600,43 @@ impl Meta {
                 .collect();
             if !cands.is_empty() {
                 let li = *rng.pick(&cands);
-                let at = rng.usize(q.lines[li].sts.len() + 1);
+                let mut at = rng.usize(q.lines[li].sts.len() + 1);
                 // not behind a remark (the rest of the line is comment) and not behind IF (its arms own the rest)
-                let blocked = q.lines[li].sts[..at].iter().any(|s| matches!(s, gen::St::Rem(..) | gen::St::If(..)));
+                let mut blocked = q.lines[li].sts[..at].iter().any(|s| matches!(s, gen::St::Rem(..) | gen::St::If(..)));
+                let what = if rng.coin() { gen::St::Stop } else { gen::St::End };
+                let name = if what == gen::St::Stop { "STOP" } else { "END" };
+                // every second time: inside the arms of an IF (start or end of THEN / ELSE), if the line has one
+                let mut in_arm = false;
+                if rng.coin() {
+                    let ifs: Vec<(usize, usize)> = q
+                        .lines
+                        .iter()
+                        .enumerate()
+                        .flat_map(|(i, l)| l.sts.iter().enumerate().filter(|(_, s)| matches!(s, gen::St::If(..))).map(move |(j, _)| (i, j)))
+                        .collect();
+                    if !ifs.is_empty() {
+                        let (i, j) = *rng.pick(&ifs);
+                        if let gen::St::If(_, t, e) = &mut q.lines[i].sts[j] {
+                            let arm: &mut Vec<gen::St> = match e {
+                                Some(e) if rng.coin() => e,
+                                _ => t,
+                            };
+                            // a lone GOTO arm may be written `THEN n`; keep the statement form
+                            let k = if rng.coin() { arm.len() } else { 0 };
+                            if !arm[..k].iter().any(|s| matches!(s, gen::St::If(..) | gen::St::Rem(..))) {
+                                arm.insert(k, what.clone());
+                                in_arm = true;
+                                blocked = false;
+                                at = j;
+                                let _ = at;
+                            }
+                        }
+                    }
+                }
                 if !blocked {
-                    let what = if rng.coin() { gen::St::Stop } else { gen::St::End };
-                    let name = if what == gen::St::Stop { "STOP" } else { "END" };
-                    q.lines[li].sts.insert(at, what);
+                    if !in_arm {
+                        q.lines[li].sts.insert(at, what);
+                    }
                     let l2 = gen::render(&q);
                     if let Some(r) = run_all(&l2, 5000, rng.coin()) {
                         ctx.count("inserted_stop_end_runs");
